@@ -6,7 +6,7 @@
 From Coq Require Import List ZArith Bool Arith.
 Import ListNotations.
 From RV Require Import Gen.GenTermination Model.Retry Model.Machine Proofs.MachineP.
-From RV Require Import Gen.GenFactsPersist Gen.GenPar Model.Par Proofs.ParP.
+From RV Require Import Gen.GenFactsPersist Gen.GenFactsBuild Gen.GenPar Model.Par Proofs.ParP.
 From Coq Require Import Permutation.
 
 (** Any two orders that finish run r leave it in the same state (same invocations recorded, same
@@ -61,9 +61,12 @@ Proof. exact num_threads_pos. Qed.
 Print Assumptions C11_par_threads.
 
 (** ... acquire_work is one step under the scheduler's lock that pops the next chunk, every worker
-    calls it until nothing remains, one worker exists per thread number and all are joined, ... *)
+    calls it until nothing remains, one worker exists per thread number and all are joined; what the
+    workers share besides the data file - the build state - is checked and changed under ONE lock
+    (build_locked), so a whole execute_run call is a step of the session model, ... *)
 Theorem C11_par_structure :
-  acquire_locked = true /\ acquire_pops = true /\ workers_loop = true /\ one_worker_per_thread = true.
+  acquire_locked = true /\ acquire_pops = true /\ workers_loop = true /\ one_worker_per_thread = true
+  /\ build_locked = true.
 Proof. repeat split; reflexivity. Qed.
 Print Assumptions C11_par_structure.
 
